@@ -509,7 +509,15 @@ func xarObs(data []byte) ([]sigObs, error) {
 		}
 		obs, err := cmsObs("cms", append([]byte{}, blob...), tocHash)
 		if err != nil {
-			return nil, err
+			// The TOC announces a CMS signature at this place of the heap and no SignedData
+			// can be read there (the reservation may be longer than the DER: trailing octets
+			// are ignored by the reader). Every signature the TOC announces is judged on its
+			// own, so this one is an observation that does not verify, and the others
+			// (classic RSA) are still looked at.
+			out = append(out, sigObs{Part: "cms", Ordered: true, First: certs[0], NCerts: len(certs),
+				VerifyErr: fmt.Errorf("no SignedData at the heap region the TOC names (offset/size of <x-signature>): %v", err),
+				Problems:  []string{"toc-signature-region-holds-no-readable-signature"}})
+			continue
 		}
 		for i := range obs {
 			if obs[i].Leaf != nil && !bytes.Equal(certs[0].Raw, obs[i].Leaf.Raw) {
@@ -1099,11 +1107,48 @@ func rpmObs(data []byte) ([]sigObs, error) {
 
 // ---- dispatch --------------------------------------------------------------------------------
 
+// unreadableErr: relic reported success and left an artifact, but the independent reader finds no
+// signature in it that it can parse at the place the format prescribes. The readers accept every
+// artifact of the unchanged tree's baseline column (checked at the start of every run), so this is
+// a statement about the artifact: "emitted, with a signature nobody can check" is neither of the
+// two outcomes the property allows (error / leaf first and value verifying under it). The callers
+// report it under a violation key of its own; only failures of the harness's own I/O stay harness
+// errors.
+type unreadableErr struct{ err error }
+
+func (e *unreadableErr) Error() string { return e.err.Error() }
+func (e *unreadableErr) Unwrap() error { return e.err }
+
+// unreadable tells whether err says "artifact emitted without a readable signature".
+func unreadable(err error) bool {
+	var u *unreadableErr
+	return errors.As(err, &u)
+}
+
 func extract(kind, artifact, contentPath string) ([]sigObs, error) {
 	data, err := os.ReadFile(artifact)
 	if err != nil {
 		return nil, err
 	}
+	if kind == "pgp-detached" {
+		if _, err := os.ReadFile(contentPath); err != nil {
+			return nil, err
+		}
+	}
+	obs, err := extractData(kind, data, contentPath)
+	if err != nil {
+		if strings.HasPrefix(err.Error(), "no extractor ") {
+			return nil, err
+		}
+		return nil, &unreadableErr{err}
+	}
+	if len(obs) == 0 {
+		return nil, &unreadableErr{errors.New("no signature found in the artifact")}
+	}
+	return obs, nil
+}
+
+func extractData(kind string, data []byte, contentPath string) ([]sigObs, error) {
 	switch kind {
 	case "scan": // the SignedData sits contiguously in the file
 		return scanCMS("cms", data, nil)
